@@ -141,3 +141,11 @@ Proof. vm_compute. split; reflexivity. Qed.
 (* meta write fails after 34 bytes (complete header): the next start parses a block inside the hole and dies *)
 Lemma w_fault_meta_restart : run_f0 wdm (w_fault_hist true 34) = Panic.
 Proof. vm_compute. reflexivity. Qed.
+
+(* why crash_cut_ok is needed: rollback truncates docs BEFORE meta. If the meta block had been
+   written completely (the error came from its fsync) and the process dies between the two
+   truncations, a complete meta block without its docs block stays behind. *)
+Lemma w_rollback_order_hazard :
+  final_fetch (run wdm (w_fault_crash_hist 0 37)) 3 = Some FetchErr /\
+  final_fetch (run wdm (w_fault_crash_hist 0 37)) 2 = Some (Body (d_body wd3)).
+Proof. vm_compute. split; reflexivity. Qed.
